@@ -1,17 +1,12 @@
 package main
 
-import (
-	"fmt"
-	"go/ast"
-	"go/token"
-	"sort"
-)
+import "fmt"
 
-// ApiClientTables: the constants the model of resolve.APIClient depends on,
-// read from the working tree: the api System number of npm, the VersionType
-// numbers, and every string literal of the npm-related functions of api.go
-// (sorted, per function), so that an edit to "npm:", "node_modules/", ">" ...
-// is re-proved against (ApiClient_proofs.api_literals_ok).
+// ApiClientTables: the numeric constants the model of resolve.APIClient
+// depends on, read from the working tree: the api System number of npm and the
+// VersionType numbers. (String literals of api.go are deliberately not tied:
+// a harmless rewrite of a format string must not break a proof obligation;
+// their effect is observed by the correspondence check.)
 func init() {
 	registerEmitter("ApiClientTables", func() {
 		env := constEnv(parseFile("api/v3/api.pb.go"), parseFile("util/resolve/resolve.go"))
@@ -23,44 +18,6 @@ func init() {
 			v, ok := env[n.goName]
 			must(ok, "constant "+n.goName)
 			fmt.Fprintf(&out, "Definition %s : Z := %s.\n", n.coq, coqZ(v))
-		}
-		f := parseFile("util/resolve/api.go")
-		for _, fn := range []string{"flattenNPMDeps", "npmRequirements", "mangledName", "isNPMBundle", "makeVersion"} {
-			var body *ast.BlockStmt
-			for _, d := range f.Decls {
-				if fd, ok := d.(*ast.FuncDecl); ok && fd.Name.Name == fn {
-					body = fd.Body
-				}
-			}
-			must(body != nil, "util/resolve/api.go: func "+fn)
-			set := map[string]bool{}
-			ast.Inspect(body, func(n ast.Node) bool {
-				// error texts are not observed (DESIGN 4.3): skip fmt.Errorf / errors.New arguments
-				if ce, ok := n.(*ast.CallExpr); ok {
-					if nm := selName(ce.Fun); nm == "Errorf" || nm == "New" {
-						return false
-					}
-				}
-				if bl, ok := n.(*ast.BasicLit); ok && bl.Kind == token.STRING {
-					if s, ok := strLit(bl); ok {
-						set[s] = true
-					}
-				}
-				return true
-			})
-			var lits []string
-			for s := range set {
-				lits = append(lits, s)
-			}
-			sort.Strings(lits)
-			fmt.Fprintf(&out, "Definition api_literals_%s : list bytes := [", fn)
-			for i, s := range lits {
-				if i > 0 {
-					out.WriteString("; ")
-				}
-				fmt.Fprintf(&out, "%s (* %q *)", coqBytes(s), s)
-			}
-			out.WriteString("].\n")
 		}
 	})
 }
